@@ -49,7 +49,7 @@ Init == /\ tid \in 1..Len(Traces)
         /\ blind = FALSE
 
 \* ------------------------------------------------------------------ measurements -> P units ------
-Good(e) == e.fit = 1 /\ e.res < 64                            \* residual < 0.25 px, else the fit is discarded
+Good(e) == e.fit = 1 /\ e.res < 16                            \* residual < 1/16 px, else the fit is discarded (contaminated by the valid-region border: a seed sweep found a 7 % error of the linear part at residual 0.11 px, 42 valid pixels)
 Fwd(e, p) == <<(e.M[1] * p[1] + e.M[2] * p[2]) \div 256 + e.t[1] * 4,     \* where the content of label p is (P units)
                (e.M[3] * p[1] + e.M[4] * p[2]) \div 256 + e.t[2] * 4>>
 OrigOf(e, k) == <<(e.A[1] * k[1] + e.A[2] * k[2]) \div 256 + e.b[1] * 4,  \* original position shown at output k (1/64)
